@@ -233,11 +233,87 @@ def first_term_only(ctx, rid, a, S, what='start'):
               'the %s of the written range is 0 except behind an `index == 0` edge, where it is the offset into the first term (%d/%d source(s))' % (what, len(nz), len(srcs)),
               'the %s of the written range is not (0 for every term but the first, the first-term offset behind `index == 0`): %s' % (
                   what, '; '.join(flow.show(e)[:60] for (_, _, e) in srcs)))
+    # the index compared with 0 counts the terms of the whole plan (seed C17a: an index restarted per batch applied the first-term offset again)
+    from .core import cond_edges
+    idxs = []
+    for (x, y) in eq0:
+        ce = cond_edges(a, x)
+        if ce:
+            idxs += [z for z in (ce[1], ce[2]) if not is0(z)]
+    if idxs:
+        bad = [z for z in idxs if not _global_index(ctx.F, a, uncast(z))]
+        ctx.check(not bad, rid, a.path, 'plan-wide index', site, 'the index tested against 0 numbers the terms of the whole plan (one enumeration / counter started outside every loop)',
+                  'the index tested against 0 (%s) does not number the terms of the whole plan (it restarts inside a loop): the first-term offset is applied to later terms as well' % (flow.show(bad[0])[-70:] if bad else ''))
     # the non-zero source is a captured / parameter value, not something derived from the term or the accumulators
     for (b, si, e) in nz:
         ls = [k for k in lin(e) if k is not None]
         ctx.check(all(isinstance(x, tuple) and x[0] in ('upvar', 'param') for x in ls) and bool(ls), rid, a.path, 'first-term offset source', a.loc(b, si) if b is not None else '-',
                   'the first-term start is a value handed to the planner (%s)' % flow.show(e)[:60])
+
+
+def _in_loop(a, b):
+    return any(b in blks for blks in a.cfg.loops().values())
+
+
+def _recv_chain_calls(a, operand, name, depth=0):
+    """blocks of the calls named `name` in the chain of adaptor calls that produced this operand (raw def chain; iterator adaptors are
+    transparent in the expression view)"""
+    p = operand.get('mv') or operand.get('cp')
+    if p is None or 'p' in p or depth > 8:
+        return []
+    ds = a.flow.defs.get(p['l'], [])
+    if len(ds) != 1:
+        return []
+    d = ds[0]
+    if d[0] == 'call':
+        t = d[2]
+        here = [d[1]] if sg(t.get('fn', '')).split('::')[-1] == name else []
+        return here + (_recv_chain_calls(a, t['args'][0], name, depth + 1) if t['args'] else [])
+    if d[0] == 'assign' and d[3].get('k') == 'use':
+        return _recv_chain_calls(a, d[3]['a'], name, depth + 1)
+    return []
+
+
+def _global_index(F, a, z):
+    """z counts the elements of one whole iteration: an enumerate() created outside every loop, a counter initialised outside every loop, or the
+    index component of the argument of a per-element closure that is mapped over such an enumerate"""
+    enum = []
+    flow.mentions(z, lambda y: y[0] == 'call' and sg(y[1]).split('::')[-1] == 'enumerate' and (enum.append(y[-1]) or False))
+    if enum:
+        return all(not _in_loop(a, b) for b in enum)
+    if z[0] == 'local':
+        ds = a.flow.defs.get(z[1], [])
+        inits = [d for d in ds if d[0] == 'assign' and not paths.additive_update(a, a.blocks[d[1]]['s'][d[2]])]
+        incs = [d for d in ds if d[0] == 'assign' and paths.additive_update(a, a.blocks[d[1]]['s'][d[2]])]
+        if inits and incs and all(not _in_loop(a, d[1]) for d in inits):
+            return True
+        srcs = a.flow.sources(z)
+        if srcs and all(se != z for (_, _, se) in srcs):
+            return all(_global_index(F, a, uncast(se)) for (_, _, se) in srcs)
+        return False
+    base = z
+    while base[0] in ('field', 'cast', 'ref', 'deref', 'variant'):
+        base = base[1]
+    if base[0] == 'local':
+        en = _recv_chain_calls(a, {'cp': {'l': base[1]}}, 'enumerate')
+        return bool(en) and all(not _in_loop(a, b) for b in en)
+    if base[0] == 'param':
+        par = F.bodies.get(a.body.get('qparent'))
+        if par is None:
+            return False
+        pa = an(par)
+        for c in pa.calls():
+            t = pa.term(c)
+            for i in range(1, len(t['args'])):
+                e = uncast(pa.arg(c, i))
+                if e[0] == 'agg' and e[1] == 'closure' and e[2] == a.path:
+                    en = []
+                    flow.mentions(pa.arg(c, 0), lambda y: y[0] == 'call' and sg(y[1]).split('::')[-1] == 'enumerate' and (en.append(y[-1]) or False))
+                    if not en:
+                        en = _recv_chain_calls(pa, t['args'][0], 'enumerate')
+                    return bool(en) and all(not _in_loop(pa, b) for b in en) and not _in_loop(pa, c)
+        return False
+    return False
 
 
 def bodies_under(F, root):
